@@ -10,7 +10,13 @@
    hz collects spec-level hazard tags of the history (used to match known findings).
    The module is the oracle for both bindings:
      R  MC_ArraySeq*.cfg : ACTION_CONSTRAINT Emit prints one JSON line per transition -> harness/c01_replay
-     V  Trace_ArraySeq   : recorded executions of the real code are validated against the same actions.   *)
+     V  Trace_ArraySeq   : recorded executions of the real code are validated against the same actions.
+
+   Next is the core of the property (the calls listed in C01).  The section "remaining public surface" adds the
+   rest of include/asl/Array.h (constructors, pointer-based append/copy incl. pointers INTO the same array,
+   initializer lists, conversions, sort(Less)/sortBy, removeIf/removeOne variants, enumerators, comparison,
+   join); NextExt / SpecExt explore those on top of a small set of core calls (MC_ArraySeqExt_*.cfg).  The
+   sibling containers refine this module: ArrayFix.tla (Array_<T,N>) and Array2D.tla (Array2<T>).          *)
 EXTENDS Naturals, Sequences, FiniteSets, TLC, Json, SequencesExt
 
 CONSTANTS NH,        \* handles are 1..NH
@@ -46,6 +52,45 @@ Succ(v)            == IF v = 0 THEN 0 ELSE (v % Cardinality(V)) + 1          \* 
 IdxEnc(s, v, j) == IF \E i \in (j+1)..Len(s) : s[i] = v
                    THEN CHOOSE i \in (j+1)..Len(s) : s[i] = v /\ \A k \in (j+1)..(i-1) : s[k] # v
                    ELSE 0
+
+
+(* --- reference semantics of the remaining surface --- *)
+\* comparison.  == is element-wise equality.  operator< is NOT documented; the code returns true as soon as some
+\* a[i] < b[i], even after an earlier a[j] > b[j] (so [1,2] < [2,1] and [2,1] < [1,2] both hold).  The specification
+\* therefore fixes the result only where that definition and the lexicographic order agree and leaves the rest open:
+\*   1 = must be true, 0 = must be false, 2 = unspecified (first differing element is greater)
+FirstDiff(s, t) == LET n == IF Len(s) < Len(t) THEN Len(s) ELSE Len(t)
+                       D == {i \in 1..n : s[i] # t[i]}
+                   IN IF D = {} THEN 0 ELSE CHOOSE i \in D : \A k \in D : i <= k
+Lt3(s, t) == LET d == FirstDiff(s, t) IN
+             IF d = 0 THEN (IF Len(s) < Len(t) THEN 1 ELSE 0) ELSE IF s[d] < t[d] THEN 1 ELSE 2
+EqEnc(s, t) == IF s = t THEN 1 ELSE 0
+
+\* sort(Less) with "greater" and sortBy(key) with an injective, non-monotone key: the results are determined
+KeyOf(v)          == (2 * v) % 5                                   \* injective on 0..4: 0 2 4 1 3
+SeqSortedDesc(s)  == SortSeq(s, LAMBDA a, b : a > b)
+SeqSortedByKey(s, asc) == SortSeq(s, LAMBDA a, b : IF asc = 1 THEN KeyOf(a) < KeyOf(b) ELSE KeyOf(a) > KeyOf(b))
+\* sortBy with a key that is NOT injective (parity): quicksort is not stable, so every permutation that is ordered
+\* by the key is allowed (used by trace validation, where the implementation's result is part of the event)
+ParOf(v)          == v % 2
+CountOf(s, v)     == Cardinality({i \in 1..Len(s) : s[i] = v})
+SameBag(s, t)     == Len(s) = Len(t) /\ \A v \in Val0 : CountOf(s, v) = CountOf(t, v)
+OrderedByPar(s)   == {i \in 1..(Len(s) - 1) : ParOf(s[i]) > ParOf(s[i+1])} = {}
+SeqRemoveLt(s, v) == SelectSeq(s, LAMBDA x : ~(x < v))
+SeqFill(n, v)     == [i \in 1..n |-> v]
+
+\* join(sep): the element texts joined by sep, as byte codes.  tt selects the element text: 0 = Array<int>
+\* (decimal), 1 / 2 = the two String tables of harness/c01_common.h (ConvStr<0>, ConvStr<1>: keep them equal)
+RECURSIVE DecCodes(_)
+DecCodes(n) == IF n < 10 THEN <<48 + n>> ELSE DecCodes(n \div 10) \o <<48 + (n % 10)>>
+TabA == <<<<>>, <<97>>, <<98,99,100,101,102,103,104,105,106,107,108,109,110,111,112,113,114,115,116,117,118,119,120,121,122,48,49,50,51,52,53,54,55,56,57,65,66,67,68>>, <<99,50,51>>>>
+TabB == <<<<>>, <<97,50,51,52,53,54,55,56,57,48,49,50,51,52,53>>, <<98,50,51,52,53,54,55,56,57,48,49,50,51,52,53,54>>, <<99,50,51,52,53,54,55,56,57,48,49,50,51,52,53,54,55,56,57,48,49,50,51>>>>
+TextOf(tt, v) == IF tt = 0 THEN DecCodes(v) ELSE IF tt = 1 THEN TabA[(v % 4) + 1] ELSE TabB[(v % 4) + 1]
+RECURSIVE JoinR(_, _, _, _, _)
+JoinR(s, tt, sep, a, b) == IF a > b THEN <<>>
+                           ELSE IF a = b THEN TextOf(tt, s[a])
+                           ELSE LET m == (a + b) \div 2 IN JoinR(s, tt, sep, a, m) \o sep \o JoinR(s, tt, sep, m + 1, b)
+JoinCodes(s, tt, sep) == JoinR(s, tt, sep, 1, Len(s))
 
 -------------------------------------------------------------------------------
 Init == /\ hb = [h \in H |-> IF h = 1 THEN 1 ELSE 0]
@@ -154,6 +199,95 @@ QGet(h) == /\ h \in Live /\ S(h) # <<>>
 \* push / put are Append1 executed through Stack::push / Queue::put by the replayer
 
 -------------------------------------------------------------------------------
+(* remaining public surface of asl::Array (include/asl/Array.h) *)
+\* literal lists used by the list-taking calls in model checking (override with  Lits <- ...  in a cfg)
+Lits == {<<>>, <<2>>, <<2, 1>>, <<1, 2, 1, 2>>}
+\* thorough (Lits <- LitsT): every array(a0, ..) overload
+LitsT == {<<>>, <<2, 1>>, <<1, 2, 1, 2>>, <<2, 1, 2, 1, 2>>, <<1, 1, 2, 2, 1, 2>>}
+Seps == {<<>>, <<44, 32>>}
+
+ReadOnly(rec) == /\ UNCHANGED <<hb, blk>> /\ Log(rec, {})
+
+(* constructors: all give a fresh block bound to g (a dead handle, or a live one that is re-assigned) *)
+\* Array(n): n default-constructed elements
+CtorN(g, n) == /\ g \in H /\ NewBlock(g, SeqFill(n, 0), [op |-> "ctorN", h |-> g, g |-> g, n |-> n], {})
+\* Array(n, x)
+CtorFill(g, n, v) == /\ g \in H /\ NewBlock(g, SeqFill(n, v), [op |-> "ctorFill", h |-> g, g |-> g, n |-> n, v |-> v], {})
+\* from a list of values: via = "ptr" Array(const T* p, n) on a foreign buffer, "init" Array{...}, "arrayinit" array({...}),
+\* "arrayfn" array(a0, .., a5) (1..6 elements), "comma" (Array<T>(), a0, a1, ...)   [the sibling modules add their own forms]
+FromList(g, s, via) == /\ g \in H /\ (via = "arrayfn" => Len(s) \in 1..6)
+                       /\ NewBlock(g, s, [op |-> "fromList", h |-> g, g |-> g, s |-> s, via |-> via], {})
+\* Array(p, n) with p = a.data() + i pointing into the live array behind h (equals slice(i, i+n))
+CtorPtr(h, g, i, n) == /\ h \in Live /\ g \in H /\ i \in 0..Len(S(h)) /\ n \in 0..(Len(S(h)) - i)
+                       /\ NewBlock(g, SubSeq(S(h), i + 1, i + n), [op |-> "ctorPtr", h |-> h, g |-> g, i |-> i, n |-> n], {})
+
+(* pointer-based append / copy: p = g.data() + i, n elements; g may be h or share h's block (the argument then
+   refers to elements of the array that is being changed) *)
+AppendPtr(h, g, i, n) == /\ h \in Live /\ g \in Live /\ i \in 0..Len(S(g)) /\ n \in 0..(Len(S(g)) - i)
+                         /\ Len(S(h)) + n <= MaxLen + 2
+                         /\ InPlace(h, S(h) \o SubSeq(S(g), i + 1, i + n), [op |-> "appendPtr", h |-> h, g |-> g, i |-> i, n |-> n],
+                                    IF hb[h] = hb[g] THEN {"AliasPtr"} ELSE {})
+CopyPtr(h, g, i, n) == /\ h \in Live /\ g \in Live /\ i \in 0..Len(S(g)) /\ n \in 0..(Len(S(g)) - i)
+                       /\ InPlace(h, SubSeq(S(g), i + 1, i + n), [op |-> "copyPtr", h |-> h, g |-> g, i |-> i, n |-> n],
+                                  IF hb[h] = hb[g] THEN {"AliasPtr"} ELSE {})
+
+(* initializer lists *)
+\* a = {...}: resizes and assigns in place.  What other handles of the block see is not documented (the copy
+\* assignment from an Array re-binds, this one writes through), so it is generated for unshared arrays only
+AssignList(h, s) == /\ h \in Live /\ RC(hb[h]) = 1
+                    /\ InPlace(h, s, [op |-> "assignList", h |-> h, s |-> s], {})
+\* a.append({...})
+AppendList(h, s) == /\ h \in Live /\ Len(S(h)) + Len(s) <= MaxLen + 2
+                    /\ InPlace(h, S(h) \o s, [op |-> "appendList", h |-> h, s |-> s], {})
+
+(* element-type conversions; the replayer converts to a boxed element type and back, so values are preserved *)
+\* via = "ctor" Array<T>(Array<K>), "with" a.with<K>(), "map_" a.map_<K>(f)
+Convert(h, g, via) == /\ h \in Live /\ g \in H
+                      /\ NewBlock(g, S(h), [op |-> "conv", h |-> h, g |-> g, via |-> via], {})
+\* h = Array<K>(contents of g): template operator=, writes in place (unshared only, as AssignList)
+AssignConv(h, g) == /\ h \in Live /\ g \in Live /\ RC(hb[h]) = 1
+                    /\ InPlace(h, S(g), [op |-> "assignConv", h |-> h, g |-> g], {})
+
+(* sorting with a comparison object / a key *)
+SortDesc(h) == /\ h \in Live /\ InPlace(h, SeqSortedDesc(S(h)), [op |-> "sortDesc", h |-> h], {})
+SortByKey(h, asc) == /\ h \in Live /\ \A i \in 1..Len(S(h)) : S(h)[i] \in 0..4
+                     /\ InPlace(h, SeqSortedByKey(S(h), asc), [op |-> "sortBy", h |-> h, asc |-> asc], {})
+\* sortBy(parity): any permutation ordered by the key (trace validation only: s2 is the implementation's result)
+SortByPar(h, s2) == /\ h \in Live /\ SameBag(S(h), s2) /\ OrderedByPar(s2)
+                    /\ InPlace(h, s2, [op |-> "sortByPar", h |-> h], {})
+
+(* removal variants *)
+\* removeIf(x < v): v = 0 removes nothing, v above every element removes everything
+RemoveIfLt(h, v) == /\ h \in Live /\ InPlace(h, SeqRemoveLt(S(h), v), [op |-> "removeIfLt", h |-> h, v |-> v], {})
+\* removeOne(x, i0): search starts at i0
+RemoveOneFrom(h, v, i0) == /\ h \in Live /\ i0 \in 0..Len(S(h))
+                           /\ LET p == IdxEnc(S(h), v, i0) IN
+                              InPlace(h, IF p = 0 THEN S(h) ELSE SeqRemove(S(h), p - 1, 1),
+                                      [op |-> "removeOneFrom", h |-> h, v |-> v, i |-> i0, r |-> IF p = 0 THEN 0 ELSE 1], {})
+\* remove(i, 0) removes nothing
+RemoveNone(h, i) == /\ h \in Live /\ i \in 0..Len(S(h))
+                    /\ InPlace(h, S(h), [op |-> "remove", h |-> h, i |-> i, n |-> 0], {})
+
+(* calls that only read: the value they must return is part of the record *)
+\* enumeration: via = "slice_" a.slice_(i1, i2) (i2 = 0: to the end), "all" a.all(), "for" range-for, "foreach" the macro
+EnumRange(h, i1, i2, via) == /\ h \in Live /\ i1 \in 0..Len(S(h)) /\ i2 \in 0..Len(S(h)) /\ (i2 = 0 \/ i1 <= i2)
+                             /\ (via # "slice_" => i1 = 0 /\ i2 = 0)
+                             /\ ReadOnly([op |-> "enum", h |-> h, i1 |-> i1, i2 |-> i2, via |-> via,
+                                          r |-> SubSeq(S(h), i1 + 1, IF i2 = 0 THEN Len(S(h)) ELSE i2)])
+\* indexOf(x, j)
+IndexOfFrom(h, v, j) == /\ h \in Live /\ j \in 0..Len(S(h))
+                        /\ ReadOnly([op |-> "indexOf", h |-> h, v |-> v, j |-> j, r |-> IdxEnc(S(h), v, j)])
+\* Stack::top(i) (i-th topmost; a[length-1-i] on the other containers)
+TopAt(h, i) == /\ h \in Live /\ i \in 0..(Len(S(h)) - 1)
+               /\ ReadOnly([op |-> "top", h |-> h, i |-> i, r |-> S(h)[Len(S(h)) - i]])
+\* ==, != and <
+Compare(h, g) == /\ h \in Live /\ g \in Live
+                 /\ ReadOnly([op |-> "cmp", h |-> h, g |-> g, eq |-> EqEnc(S(h), S(g)), lt |-> Lt3(S(h), S(g))])
+\* join(sep) as byte codes
+Join(h, tt, sep) == /\ h \in Live
+                    /\ ReadOnly([op |-> "join", h |-> h, tt |-> tt, sep |-> sep, r |-> JoinCodes(S(h), tt, sep)])
+
+-------------------------------------------------------------------------------
 Next == /\ Len(hist) < MaxOps
         /\ \/ \E h \in H, v \in V : Append1(h, v) \/ RemoveOne(h, v) \/ RemoveIf(h, v)
            \/ \E h \in H, i \in 0..MaxLen : AppendSelf(h, i)
@@ -172,6 +306,35 @@ Next == /\ Len(hist) < MaxOps
 
 Spec == Init /\ [][Next]_vars
 
+\* the remaining surface, explored on top of a few core calls that build the interesting shapes (shared handles,
+\* lengths around the capacity steps 3 / 6)
+ListVias == {"ptr", "init", "arrayinit", "arrayfn", "comma"}
+ConvVias == {"ctor", "with", "map_"}
+ExtOnly == \/ \E g \in H, n \in Sizes : CtorN(g, n)
+           \/ \E g \in H, n \in Sizes, v \in V : CtorFill(g, n, v)
+           \/ \E g \in H, s \in Lits, via \in ListVias : FromList(g, s, via)
+           \/ \E h, g \in H, i \in 0..MaxLen, n \in 0..(MaxLen+2) : CtorPtr(h, g, i, n) \/ AppendPtr(h, g, i, n) \/ CopyPtr(h, g, i, n)
+           \/ \E h \in H, s \in Lits : AssignList(h, s) \/ AppendList(h, s)
+           \/ \E h, g \in H, via \in ConvVias : Convert(h, g, via)
+           \/ \E h, g \in H : AssignConv(h, g) \/ Compare(h, g)
+           \/ \E h \in H : SortDesc(h)
+           \/ \E h \in H, asc \in 0..1 : SortByKey(h, asc)
+           \/ \E h \in H, v \in 0..(Cardinality(V) + 1) : RemoveIfLt(h, v)
+           \/ \E h \in H, v \in V, i \in 0..(MaxLen+2) : RemoveOneFrom(h, v, i) \/ IndexOfFrom(h, v, i)
+           \/ \E h \in H, i \in 0..(MaxLen+2) : RemoveNone(h, i) \/ TopAt(h, i)
+           \/ \E h \in H, i1, i2 \in 0..(MaxLen+2) : EnumRange(h, i1, i2, "slice_")
+           \/ \E h \in H, via \in {"all", "for", "foreach"} : EnumRange(h, 0, 0, via)
+           \/ \E h \in H, tt \in 0..2, sep \in Seps : Join(h, tt, sep)
+ExtCore == \/ \E h \in H, v \in V : Append1(h, v)
+           \/ \E h \in H, m \in Sizes : Resize(h, m)
+           \/ \E h, g \in H : CopyHandle(h, g)
+           \/ \E h \in H : DropHandle(h)
+NextExt == /\ Len(hist) < MaxOps
+           /\ (ExtOnly \/ ExtCore)
+SpecExt == Init /\ [][NextExt]_vars
+\* every call of the module (what the sibling modules' steps are checked against)
+NextAll == Next \/ (Len(hist) < MaxOps /\ ExtOnly)
+
 -------------------------------------------------------------------------------
 (* properties of the specification itself *)
 TypeOK == /\ hb \in [H -> 0..(NH+1)]
@@ -187,7 +350,8 @@ Independence ==
             touched == {hb[r.h], hb'[r.h]} \cup (IF "g" \in DOMAIN r THEN {hb'[r.g]} ELSE {})
         IN \A b \in 1..(NH+1) : (b \notin touched /\ RC(b) > 0 /\ \E h \in H : hb'[h] = b) => blk'[b] = blk[b]]_vars
 \* a clone never aliases its source
-CloneFresh == [][(hist' # hist /\ hist' # <<>> /\ hist'[Len(hist')].op \in {"clone", "reversed", "slice", "concat", "filter", "map"}) =>
+FreshOps == {"clone", "reversed", "slice", "concat", "filter", "map", "ctorN", "ctorFill", "fromList", "ctorPtr", "conv", "slice2"}
+CloneFresh == [][(hist' # hist /\ hist' # <<>> /\ hist'[Len(hist')].op \in FreshOps) =>
                    LET r == hist'[Len(hist')] IN \A x \in H \ {r.g} : hb'[x] # hb'[r.g]]_vars
 
 -------------------------------------------------------------------------------
